@@ -63,6 +63,9 @@ type Verifier struct {
 	engineErrors []string
 	funcsDone    []string
 	typeTags     map[string]int64
+	ufs          map[string]*ufDef
+	taggedAxioms []Clause
+	taggedTerms  map[int]*Term
 	funcCtxs     map[string]*FuncCtx
 	known        map[string]KnownFinding
 	knownSplit   map[string]string
@@ -75,7 +78,7 @@ func NewVerifier() *Verifier {
 		worlds: map[string]*Sort{}, specConsts: map[string]*Sort{}, aliases: map[string]types.Type{}, pureAs: map[string]*pureFunc{},
 		pureByKey: map[string]*pureFunc{}, globalSorts: map[string]*Sort{"$alloc": SInt}, globalsSpec: map[string][]string{},
 		strLits: map[string]string{}, opaqueCalls: map[string]map[string]int{}, usedLibSpecs: map[string]bool{}, inlined: map[string]bool{},
-		notes: map[string]bool{}, typeTags: map[string]int64{}, funcCtxs: map[string]*FuncCtx{}}
+		notes: map[string]bool{}, typeTags: map[string]int64{}, funcCtxs: map[string]*FuncCtx{}, ufs: map[string]*ufDef{}, taggedTerms: map[int]*Term{}}
 	v.installPrelude()
 	return v
 }
@@ -305,6 +308,12 @@ func (v *Verifier) LoadSpecFile(path string, pkgPath string, lib bool) error {
 				}
 				at.ListNil, at.ListCons = t[i+1], t[i+2]
 				i += 2
+			case "seq":
+				if i+2 >= len(t) {
+					return fmt.Errorf("%s: type %s: seq LEN AT", path, t[0])
+				}
+				at.SeqLen, at.SeqAt = t[i+1], t[i+2]
+				i += 2
 			case "opaque":
 				at.Opaque = true
 			default:
@@ -351,6 +360,35 @@ func (v *Verifier) LoadSpecFile(path string, pkgPath string, lib bool) error {
 			continue
 		}
 		v.globalsSpec[g[0]] = g[1:]
+	}
+	for _, d := range sf.UFs {
+		u := &ufDef{Name: d.Name}
+		ok := true
+		for _, p := range d.Params {
+			so, gt, err := v.resolveTypeOrSort(p.Type)
+			if err != nil {
+				if lib {
+					ok = false
+					break
+				}
+				return fmt.Errorf("%s: uf %s: %v", path, d.Name, err)
+			}
+			u.PSorts = append(u.PSorts, so)
+			u.PGoT = append(u.PGoT, gt)
+		}
+		if !ok {
+			continue
+		}
+		so, gt, err := v.resolveTypeOrSort(d.Ret)
+		if err != nil {
+			if lib {
+				continue
+			}
+			return fmt.Errorf("%s: uf %s: %v", path, d.Name, err)
+		}
+		u.Ret, u.RetGoT = so, gt
+		v.c.DeclareFun(d.Name, u.PSorts, so)
+		v.ufs[d.Name] = u
 	}
 	for _, d := range sf.SpecFuncs {
 		def := &specFuncDef{Name: d.Name, Params: d.Params, Def: d.Def, SMT: d.SMT != ""}
@@ -434,7 +472,13 @@ func (v *Verifier) LoadSpecFile(path string, pkgPath string, lib bool) error {
 		v.lemmas[l.Name] = l
 		v.lemmaOrder = append(v.lemmaOrder, l.Name)
 	}
-	v.axioms = append(v.axioms, sf.Axioms...)
+	for _, ax := range sf.Axioms {
+		if ax.Label != "" {
+			v.taggedAxioms = append(v.taggedAxioms, ax)
+		} else {
+			v.axioms = append(v.axioms, ax)
+		}
+	}
 	for _, f := range sf.Funcs {
 		f.Lib = lib
 		if _, dup := v.specs[f.Key]; dup {
@@ -546,4 +590,12 @@ func (v *Verifier) specFilesFor(dir string) []string {
 	})
 	sort.Strings(out)
 	return out
+}
+
+type ufDef struct {
+	Name   string
+	PSorts []*Sort
+	PGoT   []types.Type
+	Ret    *Sort
+	RetGoT types.Type
 }
